@@ -36,6 +36,8 @@ def type_to_neutral(t):
         return 'str'
     if isinstance(t, hl.tarray):
         return ['array', type_to_neutral(t.element_type)]
+    if isinstance(t, hl.tinterval):
+        return ['interval', type_to_neutral(t.point_type)]
     if isinstance(t, hl.tstream):
         return ['stream', type_to_neutral(t.element_type)]
     if isinstance(t, hl.tstruct):
@@ -118,12 +120,25 @@ def build(p, env):
         return hl.str(build(p[1], env))
     if k == 'concat':
         return build(p[1], env) + build(p[2], env)
+    if k == 'interval':
+        return hl.interval(build(p[1], env), build(p[2], env))
+    if k in EXT:                          # table-level nodes (field references, lookups): see c36_tables.py
+        return EXT[k](p, env)
     raise ValueError(f'unknown program node {k}')
 
 
+EXT = {}
+TOP_REFS = ('row', 'global', 'va', 'sa', 'g')
 _BINDERS = {'Let': ['name'], 'StreamMap': ['name'], 'StreamFilter': ['name'], 'StreamFold': ['accum_name', 'value_name']}
 _FN = {'toInt32': 'ToInt32', 'toInt64': 'ToInt64', 'toFloat32': 'ToFloat32', 'toFloat64': 'ToFloat64', 'concat': 'FConcat',
-       'length': 'FLength', 'indexArray': 'FIndexArray', 'str': 'FStr'}
+       'length': 'FLength', 'indexArray': 'FIndexArray', 'str': 'FStr', 'Interval': 'FInterval'}
+
+
+def uid_name(s, names):
+    """Generated field names (__uid_N) are renumbered in order of first occurrence, like the binder names."""
+    if isinstance(s, str) and s.startswith('__uid_'):
+        return ['uid', names.setdefault(s, len(names))]
+    return s
 
 
 def export_ir(x, names):
@@ -132,7 +147,17 @@ def export_ir(x, names):
         return names.setdefault(s, len(names))
 
     c = type(x).__name__
+    if c == 'Join':                       # a lookup: rendered (and typed) as its virtual IR, GetField(Ref row, uid)
+        return export_ir(x.virtual_ir, names)
     cs = list(x.children)
+    if c == 'TopLevelReference':
+        if x.name not in TOP_REFS:
+            raise Outside(f'top-level reference {x.name}')
+        return [['Ref', x.name, None], []]
+    if c == 'SelectedTopLevelReference':
+        c = 'SelectFields'
+    if c == 'ProjectedTopLevelReference':
+        c = 'GetField'
     if c == 'I32':
         h = ['I32', int(x.x)]
     elif c == 'I64':
@@ -164,15 +189,15 @@ def export_ir(x, names):
     elif c == 'Ref':
         h = ['Ref', nm(x.name), type_to_neutral(x._typ)]
     elif c == 'MakeStruct':
-        h = ['MakeStruct', [f for f, _ in x.fields]]
+        h = ['MakeStruct', [uid_name(f, names) for f, _ in x.fields]]
     elif c == 'GetField':
-        h = ['GetField', x.name]
+        h = ['GetField', uid_name(x.name, names)]
     elif c == 'InsertFields':
         if x.field_order is not None:
             raise Outside('InsertFields with field_order')
-        h = ['InsertFields', [f for f, _ in x.fields]]
+        h = ['InsertFields', [uid_name(f, names) for f, _ in x.fields]]
     elif c == 'SelectFields':
-        h = ['SelectFields', list(x.fields)]
+        h = ['SelectFields', [uid_name(f, names) for f in x.fields]]
     elif c == 'MakeArray':
         h = ['MakeArray']
     elif c in ('ArrayLen', 'CastToArray', 'ToArray', 'ToStream'):
@@ -185,6 +210,8 @@ def export_ir(x, names):
         h = ['MakeTuple']
     elif c == 'GetTupleElement':
         h = ['GetTupleElement', int(x.idx)]
+    elif c == 'Coalesce':
+        h = ['Coalesce']
     else:
         raise Outside(f'IR node {c}')
     return [h, [export_ir(ch, names) for ch in cs]]
@@ -296,4 +323,5 @@ def main():
     json.dump({'results': res}, sys.stdout)
 
 
-main()
+if __name__ == '__main__':
+    main()
